@@ -798,7 +798,9 @@ func cfgPanicCandidates(pl string) []string {
 		out = append(out, "OutputPathNotADirectory")
 	}
 	if has("makechan: size out of range") {
-		out = append(out, "ConcurrencyOutOfRange")
+		// since the slots are capped at the run number (324ff62), the capacity is out of range only when the run
+		// number itself wrapped around (a negative RunNumber) together with a wrapped concurrency limit
+		out = append(out, "ConcurrencyOutOfRange", "RunNumberOutOfRange")
 	}
 	if has("negative WaitGroup counter") {
 		out = append(out, "RunNumberOutOfRange")
